@@ -5,7 +5,7 @@
 
   Input lines: see harness/c20.cpp (T, F, B, J, K).  Output:
     MISMATCH line=<n> case=<k> kind=<T|F|B|J|K> what=<...>
-    SPECFAIL line=<n> case=<k> clause=<name>
+    SPECFAIL line=<n> case=<k> clause=<name>          (clause=no_crash for an `X` line: the real code died on that operation)
     BADLINE line=<n>
     STATS cases=.. steps=.. t=.. f=.. b=.. j=.. k=.. <histogram> nontrivial=.. mismatches=.. specfails=..
 -/
@@ -13,6 +13,7 @@ import IcingaModel.Common.Proto
 import IcingaModel.C20.Model
 import IcingaModel.C20.Spec
 import IcingaModel.C20.Json
+import IcingaModel.C20.Message
 import Std.Data.HashSet
 
 open Icinga Icinga.C20 Icinga.Proto
@@ -272,6 +273,16 @@ structure DSt where
   kModelOk : Nat := 0
   kModelStricter : Nat := 0
   kNumRange : Nat := 0
+  nD : Nat := 0
+  nM : Nat := 0
+  dDict : Nat := 0
+  dRejected : Nat := 0
+  dModelSilent : Nat := 0
+  mMsg : Nat := 0
+  mRejected : Nat := 0
+  crashes : Nat := 0
+  failedClauses : List String := []
+  mismatchKinds : List String := []
   seen : Std.HashSet UInt64 := {}
   mismatches : Nat := 0
   specfails : Nat := 0
@@ -279,12 +290,15 @@ structure DSt where
 def DSt.mark (d : DSt) (line : String) : DSt := { d with seen := d.seen.insert (hash (line.splitOn " | ").head!) }
 
 def report (d : DSt) (n : Nat) (kind what : String) : IO DSt := do
-  if d.mismatches < 50 then IO.println s!"MISMATCH line={n} case={d.caseNo} kind={kind} what={what}"
-  return { d with mismatches := d.mismatches + 1 }
+  let first := !d.mismatchKinds.contains kind
+  if d.mismatches < 50 || first then IO.println s!"MISMATCH line={n} case={d.caseNo} kind={kind} what={what}"
+  return { d with mismatches := d.mismatches + 1, mismatchKinds := if first then kind :: d.mismatchKinds else d.mismatchKinds }
 
 def specfail (d : DSt) (n : Nat) (cl : Clause) : IO DSt := do
-  if d.specfails < 50 then IO.println s!"SPECFAIL line={n} case={d.caseNo} clause={cl.name}"
-  return { d with specfails := d.specfails + 1 }
+  -- at most 50 lines, but the first failure of every clause is always printed
+  let first := !d.failedClauses.contains cl.name
+  if d.specfails < 50 || first then IO.println s!"SPECFAIL line={n} case={d.caseNo} clause={cl.name}"
+  return { d with specfails := d.specfails + 1, failedClauses := if first then cl.name :: d.failedClauses else d.failedClauses }
 
 def bad (d : DSt) (n : Nat) : IO DSt := do IO.println s!"BADLINE line={n}"; return d
 
@@ -425,6 +439,100 @@ def handleK (d : DSt) (n : Nat) (line : String) (pre post : List String) : IO DS
           return d
   | _ => bad d n
 
+/-- Compare what DecodeMessage returned for `payload` with the model; `none` = agreement (or the model is silent:
+    text outside the whitespace-free language it decodes, or not valid UTF-8). -/
+def messageDiff (payload : Bytes) (obs : MsgObs) (toks : String) : Option String × Bool :=
+  match utf8ToChars payload with
+  | none => (none, true)
+  | some _ =>
+    match jsonDecode tokCodec payload with
+    | none => (none, true)
+    | some v =>
+      match decodeMessage tokCodec payload with
+      | .ok kvs =>
+        if obs != .dict then (if hasRangeNum v then (none, true) else (some "model: dictionary, implementation: no dictionary", false))
+        else
+          let it := (toks.splitOn ",").map (normTok false)
+          let mt := renderV false (canonV (.obj kvs))
+          if toksEq mt it then (none, false) else (some s!"value impl={",".intercalate it} model={",".intercalate mt}", false)
+      | .error _ =>
+        if obs == .rejected then (none, false) else (some "model: rejected (not an object), implementation: not rejected", false)
+
+def parseMsgObs (o : String) : Option MsgObs :=
+  if o == "dict" || o == "msg" then some .dict else if o == "rejected" then some .rejected
+  else if o == "null" then some .null else if o == "other" then some .other else none
+
+def handleD (d : DSt) (n : Nat) (line : String) (pre post : List String) : IO DSt := do
+  match pre, post with
+  | [hx], o :: orest =>
+    match unhex hx, parseMsgObs o with
+    | some payload, some obs =>
+      let mut d := { d with steps := d.steps + 1, nD := d.nD + 1 }
+      match messageSpec payload obs with
+      | some cl => d ← specfail d n cl
+      | none => pure ()
+      let (diff, silent) := messageDiff payload obs (orest.headD "")
+      match diff with
+      | some w => d ← report d n "D" w
+      | none => pure ()
+      if silent then d := { d with dModelSilent := d.dModelSilent + 1 }
+      if obs == .dict then d := { d with dDict := d.dDict + 1 }
+      if obs == .rejected then d := { d with dRejected := d.dRejected + 1 }
+      if !silent then d := d.mark line
+      return d
+    | _, _ => bad d n
+  | _, _ => bad d n
+
+def handleM (d : DSt) (n : Nat) (line : String) (pre post : List String) : IO DSt := do
+  match pre, post with
+  | [_v, mx, hx, _cuts], o :: orest =>
+    match parseMax mx, unhex hx with
+    | some max, some bs =>
+      let mut d := { d with steps := d.steps + 1, nM := d.nM + 1 }
+      let mr := (nsReadTls max bs).out
+      -- frame layer
+      let frameObs? : Option (Option TlsObs) :=      -- some none: a payload was delivered to DecodeMessage
+        match o, orest with
+        | "err", [_, r] => r.toNat?.map (fun r => some (.err r))
+        | "eof", [] => some (some .eof)
+        | "msg", [_, _] => some none
+        | "rejected", [_] => some none
+        | _, _ => none
+      match frameObs? with
+      | none => bad d n
+      | some (some fo) =>
+        if obsOfTls (nsReadTls max bs) != fo then
+          d ← report d n "M" s!"frame layer impl={o} model={repr (obsOfTls (nsReadTls max bs))}"
+        match tlsSpec max bs fo with
+        | some cl => d ← specfail d n cl
+        | none => pure ()
+        return d
+      | some none =>
+        let restLen := (orest.getLast?.bind String.toNat?).getD 0
+        let obs : MsgObs := if o == "msg" then .dict else .rejected
+        -- specification on the implementation's observation: the frame the stream starts with, read off the format
+        match specFrame bs with
+        | some (p, r) =>
+          if r.length != restLen || !withinLimit max p.length then d ← specfail d n .tlsOnlyCanonical
+          else
+            match messageSpec p obs with
+            | some cl => d ← specfail d n cl
+            | none => pure ()
+        | none => d ← specfail d n .tlsOnlyCanonical
+        -- model
+        match mr with
+        | .ok p rest =>
+          if rest.length != restLen then d ← report d n "M" "rest of the stream differs"
+          let (diff, _) := messageDiff p obs (orest.headD "")
+          match diff with
+          | some w => d ← report d n "M" w
+          | none => pure ()
+        | _ => d ← report d n "M" s!"frame layer impl=payload model={repr (obsOfTls (nsReadTls max bs))}"
+        if obs == .dict then d := { d with mMsg := d.mMsg + 1 } else d := { d with mRejected := d.mRejected + 1 }
+        return d.mark line
+    | _, _ => bad d n
+  | _, _ => bad d n
+
 def handle (d : DSt) (n : Nat) (line : String) : IO DSt := do
   let ws := words line
   match ws with
@@ -438,9 +546,15 @@ def handle (d : DSt) (n : Nat) (line : String) : IO DSt := do
     else if tag == "B" then handleB d n line pre post
     else if tag == "J" then handleJ d n line pre post
     else if tag == "K" then handleK d n line pre post
+    else if tag == "D" then handleD d n line pre post
+    else if tag == "M" then handleM d n line pre post
+    else if tag == "X" then
+      -- the real code crashed / aborted / hung on this operation: the property's "processed without crashing"
+      let d ← specfail d n .noCrash
+      return { d with crashes := d.crashes + 1 }
     else bad d n
 
 def main : IO Unit := do
   let stdin ← IO.getStdin
   let d ← foldLines stdin handle ({} : DSt)
-  IO.println s!"STATS cases={d.caseNo} steps={d.steps} t={d.nT} f={d.nF} b={d.nB} j={d.nJ} k={d.nK} t_ok={d.tOk} t_err={d.tErr} t_eof={d.tEof} t_errkind_diff={d.tKindDiff} buf_items={d.bItems} buf_err={d.bErr} f_chunks={d.fChunks} j_escaped={d.jEsc} j_skipped={d.jSkipped} k_impl_ok={d.kImplOk} k_model_ok={d.kModelOk} k_model_stricter={d.kModelStricter} k_num_range={d.kNumRange} nontrivial={d.seen.size} mismatches={d.mismatches} specfails={d.specfails}"
+  IO.println s!"STATS cases={d.caseNo} steps={d.steps} t={d.nT} f={d.nF} b={d.nB} j={d.nJ} k={d.nK} t_ok={d.tOk} t_err={d.tErr} t_eof={d.tEof} t_errkind_diff={d.tKindDiff} buf_items={d.bItems} buf_err={d.bErr} f_chunks={d.fChunks} j_escaped={d.jEsc} j_skipped={d.jSkipped} k_impl_ok={d.kImplOk} k_model_ok={d.kModelOk} k_model_stricter={d.kModelStricter} k_num_range={d.kNumRange} d={d.nD} m={d.nM} d_dict={d.dDict} d_rejected={d.dRejected} d_model_silent={d.dModelSilent} m_msg={d.mMsg} m_rejected={d.mRejected} crashes={d.crashes} nontrivial={d.seen.size} mismatches={d.mismatches} specfails={d.specfails}"
